@@ -110,10 +110,9 @@ Theorem C16_sort_needs_distinct_keys :
 Proof. exact sort_needs_distinct_keys. Qed.
 Print Assumptions C16_sort_needs_distinct_keys.
 
-(* S' -> S STOP; S -> A 'x' | A 'y'; A -> 'q'.  Terminals 0 STOP, 1 'x', 2 'y', 3 'q'.
-   State 2 (after 'q') holds the item A -> 'q' . with lookahead {x, y}. *)
-
-(* without the final sort the row IS order dependent (this is what a table built with
+(* (witness data c_ex / tin_ex in Proofs/DetermProofs.v: S' -> S STOP; S -> A 'x' | A 'y';
+   A -> 'q'; the state after 'q' holds the item A -> 'q' . with lookahead {x, y})
+   without the final sort the row IS order dependent (this is what a table built with
    calc_finish_flags=False, or an unsorted dump, would expose) *)
 Theorem C16_unsorted_rows_depend_on_order :
   exists (c : dconf) (shp : N -> N) (its its' : list ((N * nat) * list N)),
